@@ -13,8 +13,9 @@ ANY option table, so in particular for `table env`); `parseDigits_spec` / `parse
 `nursery_spec`; `insertCore_spec`, `insertRange_spec`, `cpulist_item_spec`.
 
 Deviations from the documented forms, stated as theorems rather than hidden:
-* `trigger_delegated_prefix` — `Delegated` followed by ANY suffix is accepted as `Delegated`
-  (`s.starts_with("Delegated")`); reported by the check under `opts:delegated-prefix`.
+* (repaired by a `fix:` commit) on the pinned tree `Delegated` followed by ANY suffix was accepted as
+  `Delegated` (`s.starts_with("Delegated")`, key `opts:delegated-prefix`); on this tree the variant name
+  must match exactly: `trigger_delegated_exact`.
 * numbers that are not guarded by a regex (`Bounded:+5,10`, core ids `+1-+3`, `threads=+4`) accept
   one leading `+`, because `uN::from_str` does; the sizes of `gc_trigger` do not (`\d+`). The
   documentation says "numbers", so this is recorded as an observation, not a violation.
@@ -473,13 +474,12 @@ theorem dynParts_some {s a b : List Char} (h : dynParts s = some (a, b)) :
 
 /-- **C39 (trigger_spec)** what `GCTriggerSelector::from_str` accepts, exactly: every accepted string
 is `FixedHeapSize:<size>`, `DynamicHeapSize:<size>,<size>` with `<size> = digit+ [kKmMgGtT]?` whose
-values fit in 64 bits, or **starts with** `Delegated` (any suffix — a deviation from the variant
-name, see `trigger_delegated_prefix`); the value is the parsed size(s). -/
+values fit in 64 bits, or is exactly `Delegated`; the value is the parsed size(s). -/
 theorem trigger_spec (s : List Char) (t : Trigger) (h : triggerFromStr s = some t) :
     (∃ x n, s = "FixedHeapSize:".toList ++ x ∧ matchSize x = true ∧ parseSize x = some n ∧ t = .fixed n) ∨
     (∃ a b mn mx, s = "DynamicHeapSize:".toList ++ (a ++ ',' :: b) ∧ matchSize a = true ∧ matchSize b = true ∧
         parseSize a = some mn ∧ parseSize b = some mx ∧ t = .dynamic mn mx) ∨
-    ("Delegated".toList.isPrefixOf s = true ∧ t = .delegated) := by
+    (s = "Delegated".toList ∧ t = .delegated) := by
   unfold triggerFromStr at h
   by_cases hs : s = []
   · simp only [hs, if_true] at h; cases h
@@ -500,10 +500,10 @@ theorem trigger_spec (s : List Char) (t : Trigger) (h : triggerFromStr s = some 
       cases hd : dynParts s with
       | none =>
         simp only [hd] at h
-        by_cases hpre : "Delegated".toList.isPrefixOf s = true
+        by_cases hpre : s = "Delegated".toList
         · simp only [hpre, if_true, Option.some.injEq] at h
           exact Or.inr ⟨hpre, h.symm⟩
-        · simp only [hpre] at h; cases h
+        · simp only [hpre, if_false] at h; cases h
       | some ab =>
         obtain ⟨a, b⟩ := ab
         simp only [hd] at h
@@ -530,24 +530,27 @@ theorem trigger_fixed_accepts (x : List Char) (hm : matchSize x = true) :
   unfold triggerFromStr fixedPart
   simp only [hne, if_false, hs, Option.filter_some, hm, if_true]
 
-/-- **C39 (trigger_delegated_prefix)** the deviation, for every suffix: `Delegated` followed by
-anything parses as `Delegated` (and validates). -/
-theorem trigger_delegated_prefix (suffix : List Char) :
-    triggerFromStr ("Delegated".toList ++ suffix) = some .delegated ∧ Trigger.delegated.validate = true := by
-  refine ⟨?_, rfl⟩
+/-- **C39 (trigger_delegated_exact)** the variant name must match exactly: `Delegated` parses (and
+validates), `Delegated` followed by any non-empty suffix is rejected. -/
+theorem trigger_delegated_exact :
+    (triggerFromStr "Delegated".toList = some .delegated ∧ Trigger.delegated.validate = true) ∧
+    ∀ suffix : List Char, suffix ≠ [] → triggerFromStr ("Delegated".toList ++ suffix) = none := by
   have e : "Delegated".toList = ['D', 'e', 'l', 'e', 'g', 'a', 't', 'e', 'd'] := rfl
   have f : "FixedHeapSize:".toList = 'F' :: "ixedHeapSize:".toList := rfl
   have d : "DynamicHeapSize:".toList = 'D' :: 'y' :: "namicHeapSize:".toList := rfl
+  refine ⟨⟨by decide +kernel, rfl⟩, ?_⟩
+  intro suffix hne
   unfold triggerFromStr fixedPart dynParts stripPrefix
   rw [f, d, e]
-  simp [List.isPrefixOf]
+  simp [List.isPrefixOf, hne]
 
 example : triggerFromStr "FixedHeapSize:2g".toList = some (.fixed (2 * 2^30)) := by decide +kernel
 example : triggerFromStr "DynamicHeapSize:1m,512K".toList = some (.dynamic (2^20) (512 * 1024)) := by decide +kernel
 example : triggerFromStr "FixedHeapSize:18014398509481984k".toList = none := by decide +kernel   -- 2^54 · 1024 = 2^64: overflow reported
 example : triggerFromStr "FixedHeapSize:18014398509481983k".toList = some (.fixed (2^64 - 1024)) := by decide +kernel
 example : triggerFromStr "FixedHeapSize:+5".toList = none := by decide +kernel
-example : triggerFromStr "DelegatedHeapSize:1g".toList = some .delegated := by decide +kernel
+example : triggerFromStr "DelegatedHeapSize:1g".toList = none := by decide +kernel
+example : triggerFromStr "Delegated".toList = some .delegated := by decide +kernel
 
 
 /-! ## CPU lists -/
